@@ -2,7 +2,7 @@
     Model: Wire/Marshal.v (typed API marshal_t, dynamic API marshal_p; push_variant is
     marshal_t on a VVariant). Specification: Wire/SpecEnc.v (spec_enc). *)
 From RB Require Import Base.Prelude Sig.Types Sig.Validator Wire.Bytes Wire.Align Wire.Text Wire.Value Wire.SpecEnc
-  Wire.Marshal Wire.Relabel Wire.MarshalProofs.
+  Wire.Marshal Wire.Relabel Wire.MarshalProofs Wire.Limits Wire.MarshalEncodable Wire.MarshalAccept.
 
 (* typed API: whenever marshalling succeeds, the bytes appended are THE encoding of the value at the
    position given by what was written before (any buffer, both byte orders), with each descriptor
@@ -50,3 +50,31 @@ Proof.
   rewrite (marshal_p_refuses be v Ht d c c' E) in Hl. discriminate.
 Qed.
 Print Assumptions C02_param_refuses.
+
+(* acceptance - the converse: a well-typed value whose leaves are acceptable and whose array / dict bodies
+   (laid out from the position where the value is written; measured from the first element after the padding
+   that follows the length field) are all within 64 MiB IS marshalled. Neither string lengths nor the number
+   of descriptors are conditions: the code truncates them with 'as u32' (C02_*_bytes need them for the bytes) *)
+Theorem C02_typed_accepts : forall be v c, typed v -> leaves_ok v = true ->
+  arrays_within be (len (mbuf c)) v = true -> snd (marshal_t be v c) = true.
+Proof. exact marshal_t_accepts. Qed.
+Print Assumptions C02_typed_accepts.
+
+(* the Param API additionally validates the printed signature of every variant and counts nesting *)
+Theorem C02_param_accepts : forall be depth v c, typed v -> leaves_ok v = true -> variant_sigs_ok v = true ->
+  nest_ok depth v = true -> arrays_within be (len (mbuf c)) v = true -> snd (marshal_p be depth v c) = true.
+Proof. exact marshal_p_accepts. Qed.
+Print Assumptions C02_param_accepts.
+
+(* exactly when *)
+Theorem C02_typed_exactly : forall be v c, typed v ->
+  (snd (marshal_t be v c) = true <-> leaves_ok v = true /\ arrays_within be (len (mbuf c)) v = true).
+Proof. exact marshal_t_exactly. Qed.
+Print Assumptions C02_typed_exactly.
+
+Theorem C02_param_exactly : forall be depth v c, typed v ->
+  (snd (marshal_p be depth v c) = true
+   <-> leaves_ok v = true /\ variant_sigs_ok v = true /\ nest_ok depth v = true
+       /\ arrays_within be (len (mbuf c)) v = true).
+Proof. exact marshal_p_exactly. Qed.
+Print Assumptions C02_param_exactly.
